@@ -82,6 +82,12 @@ def main():
     rdir = os.path.join(os.environ.get("VERIF_EVIDENCE_DIR") or os.path.join(ROOT, "evidence"), "replays", prop)
     if unlisted and not a.replay:
         os.makedirs(rdir, exist_ok=True)
+    if unlisted and not a.replay:
+        # one line per unlisted violation (all of them, not only the first three replays), for triage
+        with open(os.path.join(rdir, "all_unlisted.jsonl"), "w") as fh:
+            for mech, lst in unlisted.items():
+                for case, v in lst:
+                    fh.write(json.dumps(to_jsonable({"mech": mech, "case_id": case.get("id"), "msg": v.get("msg"), "data": v.get("data")})) + "\n")
     for mech, lst in unlisted.items():
         path = None
         for n, (case, v) in enumerate(lst[:3]):
